@@ -2,7 +2,7 @@
 # usage: tools/runall.sh [quick|thorough] [ids...] — run checks one after the other, print one summary line each
 tier=${1:-quick}; shift
 ids=${@:-C01 C02 C03 C04 C05 C06 C07 C08 C09 C10 C11 C12 C13 C14 C15 C16 C17 C18 C19 C20}
-cd /verif
+cd "$(dirname "$0")/.."
 for c in $ids; do
   out=$(PYTHONHASHSEED=0 /venv/bin/python -m vf.run $c --tier $tier 2>&1); rc=$?
   echo "$out" | grep -E "^VIOLATION|^HARNESS|  signature" | head -6 | cut -c1-200
